@@ -129,6 +129,9 @@ def run(ctx):
     specs = []
     for n in range(1, maxn + 1):
         specs += dag_specs(n, "unique", payloads=("alt",))
+    for n in range(2, maxn + 1):  # named outputs next to the default output name "0"
+        specs += dag_specs(n, "unique", payloads=("alt",), outputs=("multi",), out_names=("0", "b"))
+        specs += dag_specs(n, "unique", payloads=("alt",), outputs=("multi",), out_names=("b", "0"))
     if not ctx.quick:
         specs += dag_specs(6, "unique", payloads=("alt",), outputs=("multi", "terminal-none"))
     modes = ["json-str", "json-mixed", "python"]
